@@ -358,9 +358,9 @@ func (r *runner) runShard(shard, nshards int) *workerResult {
 			res.incon = append(res.incon, fmt.Sprintf("case %d exceeded its time limit OUTSIDE the library (slow generator / oracle of the harness): skipped, no verdict", k))
 		case 'H':
 			hung := 0
-			for i := 0; i < 3; i++ {
+			for i := 0; i < 2; i++ {
 				itag := fmt.Sprintf("%s-iso%d-%d", r.label, k, i)
-				e, kl := r.spawn(itag, 0, 1, k, 0, 60, 3*time.Minute)
+				e, kl := r.spawn(itag, 0, 1, k, 0, 45, 3*time.Minute)
 				if e == 3 || kl {
 					hung++
 				} else if e == 5 {
@@ -372,10 +372,10 @@ func (r *runner) runShard(shard, nshards int) *workerResult {
 					break
 				}
 			}
-			if hung == 3 {
+			if hung == 2 {
 				res.crashes = append(res.crashes, Violation{Property: r.chk.ID, Tier: r.tier, Seed: r.seed, K: k,
 					Key:     fmt.Sprintf("hang case=%d", k),
-					Message: "a library call did not return: the case exceeded its time limit and, re-run alone three times, 60 s each time",
+					Message: "a library call did not return: the case exceeded its time limit and, re-run alone twice in fresh processes, 45 s inside one library call each time",
 					Detail:  map[string]interface{}{"stderr_head": head(filepath.Join(r.dir, tag+".stderr"), 3000)}})
 			} else {
 				res.incon = append(res.incon, fmt.Sprintf("case %d exceeded its time limit under load but completed when re-run alone", k))
@@ -399,8 +399,8 @@ func (r *runner) runShard(shard, nshards int) *workerResult {
 			}
 		}
 		from = k + 1
-		if len(res.crashes) >= 3 {
-			// three confirmed crashes / hangs in one shard: the verdict is in, do not spend an hour confirming more
+		if len(res.crashes) >= 2 {
+			// two confirmed crashes / hangs in one shard: the verdict is in, do not spend an hour confirming more
 			res.incon = append(res.incon, fmt.Sprintf("shard %d: stopped after %d confirmed crashes/hangs (remaining cases from %d on not executed)", shard, len(res.crashes), from))
 			return res
 		}
